@@ -520,6 +520,19 @@ func (k *c19) sets56() {
 		}
 	}
 
+	// what was returned earlier is still what it was (a result that shares storage with a later call's result is not a
+	// value): every block and text kept from the loop above is compared once more, after all the other calls
+	for i := range blocks {
+		if i < len(sets) && vh.X(blocks[i]).Atom != resps[2*i+1].Atom {
+			k.spec("a SIDBlock returned earlier changed after later calls", trunc(sets[i].val().String(), 600), resps[2*i+1].Atom, vh.X(blocks[i]).Atom)
+			break
+		}
+		if i < len(sets) && texts[i] != sets[i].text() {
+			k.spec("a String() returned earlier changed after later calls", trunc(sets[i].val().String(), 600), sets[i].text(), texts[i])
+			break
+		}
+	}
+
 	// non-canonical and malformed texts
 	ivTemplates := []string{"%d", "%d-%d", "%[2]d-%[1]d", "%d-%[1]d", "0", "0-%d", "-%d", "+%d", "0%d", "%d-", "-", "", "%d-%d-%d", " %d", "%d ", "a", "%d-a",
 		"9223372036854775807", "9223372036854775808", "1-9223372036854775807", "%d-0", "%d_0"}
